@@ -82,6 +82,25 @@ struct Doer : dv::Typed<TE, Doer> {
 		else if(what == "assign_elems_named") { auto&& e = d.elements(); e = std::as_const(sh->v).elements(); }
 		else if(what == "swap") { swap(std::move(d), std::move(s)); }
 		else if(what == "move") { d = s.element_moved(); }
+		else if(what == "assign_from_rv") { d = std::move(s); }             // lvalue view = rvalue view of the same type: a copy
+		else if(what == "assign_rv_rv") { std::move(d) = std::move(s); }
+		else if(what.rfind("aref_", 0) == 0) {  // the array_ref overloads (contiguous references over whole roots)
+			using MP = TE*;
+			using CP = typename std::pointer_traits<MP>::template rebind<TE const>;
+			MP dp = const_cast<TE*>(dcv.base());
+			MP sp = const_cast<TE*>(sh->v.base());
+			multi::array_ref<TE, D, MP> dref(dp, d.extensions());
+			multi::array_ref<TE, D, MP> sref(sp, s.extensions());
+			if(!(dref.layout() == d.layout()) || !(sref.layout() == s.layout())) { throw dv::unsupported("aref on a non-contiguous view"); }
+			multi::array_ref<TE, D, CP> cref(CP(sp), s.extensions());
+			if(what == "aref_lv") { dref = sref; }
+			else if(what == "aref_rv") { std::move(dref) = sref; }
+			else if(what == "aref_conv_lv") { dref = cref; }
+			else if(what == "aref_conv_rv") { std::move(dref) = cref; }
+			else if(what == "aref_from_rv") { dref = std::move(sref); }
+			else if(what == "aref_from_array") { multi::array<TE, D> A(sref); dref = A; }
+			else { throw dv::unsupported("unknown do " + what); }
+		}
 		else { throw dv::unsupported("unknown do " + what); }
 		done = true;
 	}
